@@ -580,6 +580,23 @@ class Exec(object):
                 kind = 'overwrite' if a in self.model else 'store_new'
                 cache.store_tile(self.tile(a, data))
                 self.set_model(a, data)
+            elif k == 'store_try':
+                # a store that the cache may refuse (payload at the limits of the format's size fields): a refusal leaves
+                # the address as it was, a success must be readable; either way the bundle must stay valid
+                a = tuple(step[1])
+                data = payload(step[2])
+                kind = 'store_at_size_limit'
+                try:
+                    res = cache.store_tile(self.tile(a, data))
+                except Exception as ex:
+                    res = False
+                    self.run.count('store_at_size_limit_raised_%s' % type(ex).__name__)
+                    self.cache = None      # a fresh cache object after a failed store
+                if res is False:
+                    self.run.count('store_at_size_limit_refused')
+                else:
+                    self.run.count('store_at_size_limit_accepted')
+                    self.set_model(a, data)
             elif k == 'store_many':
                 items = [(tuple(a), payload(sp)) for a, sp in step[1]]
                 keys = set(bkey(a) for a, _ in items)
@@ -755,8 +772,8 @@ def _fmt_thr(d):
 
 
 def _fmt_step(s):
-    if s[0] == 'store':
-        return "store%s %s%d" % (tuple(s[1]), s[2][0], s[2][1])
+    if s[0] in ('store', 'store_try'):
+        return "%s%s %s%d" % (s[0], tuple(s[1]), s[2][0], s[2][1])
     if s[0] == 'store_many':
         return "store_tiles[%s]" % ', '.join("%s %s%d" % (tuple(a), sp[0], sp[1]) for a, sp in s[1])
     if s[0] == 'remove':
@@ -798,6 +815,11 @@ def directed():
                ['store', [0xe00, 0xbe00, 16], sp()], ['store', [0xe00, 0xbe00, 16], sp()],
                ['store', [0x10000, 0x1ab80, 18], sp()], ['store', [0x10000, 0x1ab80, 18], sp()], ['defrag', A],
                ['remove', [0xe00, 0xbe00, 16]], ['defrag', A]])
+    # payloads at the limit of the v2 index size field (24 bits) and beyond: accepted and readable, or refused
+    L = 1 << 24
+    hs.append([['store', [3, 4, 5], sp()], ['store_try', [4, 4, 5], sp('raw', L - 1)], ['store_try', [5, 4, 5], sp('raw', L)],
+               ['store', [6, 4, 5], sp()], ['store_try', [7, 4, 5], sp('raw', L + 5)], ['store', [3, 4, 5], sp()],
+               ['defrag', A], ['store_try', [4, 4, 5], sp('raw', L + 300)], ['defrag', A]])
     return hs
 
 
